@@ -41,8 +41,47 @@ theorem inv7 {cfg : Cfg} (hs : cfg.code.Sound) {s : St} (h : Reach cfg s) : Inv7
   | step hr hstep ih => exact inv7_step (inv2 hs hr) ih hstep
 
 
-theorem code_sound {cfg : Cfg} (hc : cfg.code = doCode ∨ cfg.code = dcCode) : cfg.code.Sound := by
-  rcases hc with h | h <;> rw [h] <;> first | exact doCode_sound | exact dcCode_sound
+def isRetF : Pc → Bool
+  | .retErr (.f _) => true
+  | _ => false
+
+/-- a failed call leaves its own trace: errgroup has recorded an error, or the worker in which the call
+failed is still returning that error (errgroup's bookkeeping has not run yet), or (sequential path) the
+call has returned an error of `f` -/
+structure Inv8 (cfg : Cfg) (s : St) : Prop where
+  C : hasFail s = true → s.egErr ≠ none ∨ 0 < cnt isRetF s.ws ∨ (∃ k, s.ret = some (some (.f k)))
+
+theorem inv8_init (cfg : Cfg) : Inv8 cfg (init cfg) := by
+  unfold init
+  split <;> refine ⟨?_⟩ <;> simp [hasFail]
+
+theorem inv8_step {cfg : Cfg} (hs : cfg.code.Sound) {s s' : St} {l : Label} (h2 : Inv2 cfg s) (hi : Inv8 cfg s)
+    (h : step cfg s l = some s') : Inv8 cfg s' := by
+  have ⟨c⟩ := hi
+  have ⟨iD, iM, iS, iG, iR, iE⟩ := h2
+  cases l with
+  | fetch w | check w | begin w | fEnd w r | egDone w =>
+    pardo_cases h =>
+      (have hw := ‹_[_]? = some _›
+       have hR := cnt_ge isRetF hw
+       refine ⟨?_⟩ <;>
+         simp [Option.isSome_iff_ne_none, Res.isErr, hasFail, cnt_set hw, isRetF, hs.workerCancelled,
+           hs.workerFailed, hs.seqStops] at * <;> grind [cause_err_cases])
+  | callerCancel => pardo_cases h => (refine ⟨?_⟩ <;> simp [hasFail] at * <;> grind)
+  | ret => pardo_cases h => (refine ⟨?_⟩ <;> simp [hasFail, isRetF, *] at * <;> grind)
+
+theorem inv8 {cfg : Cfg} (hs : cfg.code.Sound) {s : St} (h : Reach cfg s) : Inv8 cfg s := by
+  induction h with
+  | init => exact inv8_init cfg
+  | step hr hstep ih => exact inv8_step hs (inv2 hs hr) ih hstep
+
+theorem exists_retF_of_cnt {ws : List Pc} (h : 0 < cnt isRetF ws) : ∃ k, Pc.retErr (.f k) ∈ ws := by
+  obtain ⟨pc, hm, hp⟩ := List.countP_pos_iff.1 h
+  cases pc with
+  | retErr e => cases e with
+    | f k => exact ⟨k, hm⟩
+    | _ => simp [isRetF] at hp
+  | _ => simp [isRetF] at hp
 
 theorem countP_le_cnt_notDone (p : Pc → Bool) (hp : p .done = false) (ws : List Pc) :
     ws.countP p ≤ cnt notDone ws := by
